@@ -29,7 +29,25 @@ FAMILIES = (
     + [('cwmm', {})]
     + [('gmm', dict(covariance_type=t)) for t in ('full', 'diagonal', 'spherical')]
     + [('gcacgmm', dict(covariance_type=t)) for t in ('spherical', 'diagonal', 'full')]
+    # covariance handed over by the caller and kept fixed (means and weights are still exact M-steps)
+    + [('gmm', dict(covariance_type=t, fixed_covariance='fixed')) for t in ('full', 'diagonal', 'spherical')]
+    + [('gcacgmm', dict(covariance_type='spherical', fixed_covariance='fixed'))]
 )
+
+
+def fixed_cov(model, ct, lead, K, D):
+    """class dependent, well conditioned covariance of the shape the trainer documents."""
+    E = 3 if model in M.INTEGRATION else D
+    pre = () if model in M.INTEGRATION else tuple(lead)
+    scale = 0.4 + 0.35 * np.arange(K)
+    if ct == 'full':
+        base = np.eye(E) + 0.2
+        out = scale[:, None, None] * base
+    elif ct == 'diagonal':
+        out = scale[:, None] * (1.0 + 0.5 * np.arange(E))
+    else:
+        out = scale.copy()
+    return np.broadcast_to(out, pre + out.shape).copy()
 
 
 def make_data(seed, model, lead, K, D, ds):
@@ -41,7 +59,17 @@ def make_data(seed, model, lead, K, D, ds):
         # Mahalanobis distance is bounded by (class mass) / (its own weight), so the class must be large
         per = 1200
         N = K * per
-    if ds == 'unclustered':
+    if ds == 'diffuse':
+        # many frames of a weak directional source in diffuse noise plus a purely diffuse class: the maximum
+        # likelihood concentrations are of order one although there are many channels (only visible for large N)
+        N = 20000
+        r = A.rng(seed, 'c02diffuse', model, K, D)
+        steer = np.exp(2j * np.pi * r.uniform(size=D))
+        lab = r.uniform(size=lead + (N, 1)) < 0.4
+        src = 1.2 * steer * np.exp(2j * np.pi * r.uniform(size=lead + (N, 1)))
+        nz = A.cnormal(r, lead + (N, D)) * np.sqrt(2)
+        y = np.where(lab, src + nz, nz)
+    elif ds == 'unclustered':
         y = A.generic_data(seed, lead + (N, D), 'c02', model, K, D, complex_=cplx)
     else:
         y, _ = A.clustered_data(seed, lead, K, per, D, 'c02', ds, model, complex_=cplx,
@@ -137,6 +165,8 @@ def run_traj(key):
     else:
         sal = S.make_saliency(lead, N, salk)
     opts = dict(fopts)
+    if opts.get('fixed_covariance') == 'fixed':
+        opts['fixed_covariance'] = fixed_cov(model, opts['covariance_type'], lead, K, D)
     opts['weight_constant_axis'] = wca
     if sal is not None:
         opts['saliency'] = sal
@@ -298,7 +328,23 @@ def subchecks(tier, seed):
               ('family', 'wca', 'sal', 'eps', 'K', 'D', 'F', 'data', 'start', 'n', 'seed'), big_cases, run_traj,
               bound=dict(iterations=4, N='2400 per slice, one observation 60 spreads away', K=2, D=2,
                          families='gmm full/diagonal/spherical'), require_flags=('increasing',))
-    return [big, Sub('em_trajectories',
+    def wide_cases():
+        for fam, (model, fopts) in enumerate(FAMILIES):
+            if model not in ('cwmm', 'cacgmm') or fopts.get('hermitize') is False or \
+                    fopts.get('covariance_norm', 'eigenvalue') != 'eigenvalue':
+                continue
+            for D in (12, 21):
+                for ds in ('unclustered', 'loose', 'diffuse'):
+                    for st in (0, 1):
+                        if ds == 'diffuse' and (model != 'cwmm' or D != 21):
+                            continue
+                        yield (fam, (-1,), 'none', 'default' if model == 'cacgmm' else 'none', 2, D, 1, ds, st,
+                               30 if ds == 'diffuse' else 8, seed)
+    wide = Sub('em_many_channels',
+               ('family', 'wca', 'sal', 'eps', 'K', 'D', 'F', 'data', 'start', 'n', 'seed'), wide_cases, run_traj,
+               bound=dict(iterations=8, D=[12, 21], K=2, families='cwmm, cacgmm', note='low concentrations in many '
+                          'channels'))
+    return [big, wide, Sub('em_trajectories',
                 ('family', 'wca', 'sal', 'eps', 'K', 'D', 'F', 'data', 'start', 'n', 'seed'),
                 cases, run_traj,
                 bound=dict(iterations=n, families=[f'{m}{o}' for m, o in FAMILIES],
